@@ -427,7 +427,11 @@ func (c *ctx) oracleRoundTrip(id string, src *GV, fr FromResult) {
 			structural := false
 			for _, d := range diffs {
 				if strings.HasPrefix(k, d) && d != k {
-					structural = true
+					// ... except for the scalar elements of a repeated field or map that differs as a whole
+					// (C19 quantifies over "repeated element, map value"): an element that is not read back
+					if rest := k[len(d):]; !(strings.HasPrefix(rest, "[") && strings.Index(rest, "]") == len(rest)-1) {
+						structural = true
+					}
 				}
 			}
 			if !structural {
